@@ -124,13 +124,15 @@ func (s *SummaryStatistics) sumWithCompensation(value float64) {
 // have been if AddWithCount had been called with counts multiplied by factor.
 func (s *SummaryStatistics) Reweight(factor float64) {
 	s.count *= factor
+	if s.count == 0 {
+		// Nothing is left, possibly because the count has underflowed to zero:
+		// the statistics must not keep the extremes and the sum of what is gone.
+		s.Clear()
+		return
+	}
 	s.sum *= factor
 	s.sumCompensation *= factor
 	s.simpleSum *= factor
-	if factor == 0 {
-		s.min = math.Inf(1)
-		s.max = math.Inf(-1)
-	}
 }
 
 // Rescale adjusts the statistics so that they are equal to what they would have
